@@ -268,8 +268,8 @@ def cases(draw):
 
 
 def campaign_random(ctx):
-    ctx.search(cases(), oracle_factory(ctx), ctx.budget(8000, 400000))
-campaign_random.shards = (6, 16)
+    ctx.search(cases(), oracle_factory(ctx), ctx.budget(32000, 400000))
+campaign_random.shards = (10, 16)
 
 
 def campaign_corruptions(ctx):
